@@ -13,6 +13,7 @@ import (
 	"bytes"
 	"runtime"
 	"strconv"
+	"strings"
 	"sync"
 	"time"
 )
@@ -210,6 +211,87 @@ func (c *Ctl) Drain() {
 			if !c.ths[i].done {
 				c.Step(i)
 			}
+		}
+	}
+}
+
+// allStacks returns the full goroutine dump split per goroutine.
+func allStacksSplit() []string {
+	buf := make([]byte, 1<<18)
+	for {
+		n := runtime.Stack(buf, true)
+		if n < len(buf) {
+			buf = buf[:n]
+			break
+		}
+		buf = make([]byte, 2*len(buf))
+	}
+	var out []string
+	for _, blk := range bytes.Split(buf, []byte("\n\n")) {
+		out = append(out, string(blk))
+	}
+	return out
+}
+
+// stuckInPackage: the goroutines that are inside package frames matching pkg, and whether every
+// one of them waits on a lock or WaitGroup (none runnable, running, sleeping or in a syscall).
+func stuckInPackage(pkg string) (ids string, allBlocked bool, dump string) {
+	allBlocked = true
+	n := 0
+	for _, st := range allStacksSplit() {
+		if !strings.Contains(st, pkg) || strings.Contains(st, "main.allStacksSplit") {
+			continue
+		}
+		hdr := st
+		if k := strings.IndexByte(st, '\n'); k >= 0 {
+			hdr = st[:k]
+		}
+		if strings.Contains(hdr, "[select") && strings.Contains(st, ").reportLoop(") {
+			continue // the report loop idling between ticks
+		}
+		n++
+		ids += hdr[:strings.IndexByte(hdr, '[')] + ";"
+		if !(strings.Contains(hdr, "[semacquire") || strings.Contains(hdr, "[sync.")) {
+			allBlocked = false
+		}
+		if len(dump) < 6000 {
+			dump += st + "\n\n"
+		}
+	}
+	if n == 0 {
+		allBlocked = false
+	}
+	return
+}
+
+// waitOrDeadlock waits for wg. It returns "" when wg completes. When the goroutines that are
+// inside the package all wait on locks / WaitGroups - the same goroutines, in four samples
+// 250 ms apart - nothing can release them: it returns a description of the deadlock instead
+// (the verdict comes from the runtime's goroutine states, not from elapsed time).
+func waitOrDeadlock(wg *sync.WaitGroup, pkg string) string {
+	done := make(chan struct{})
+	go func() { wg.Wait(); close(done) }()
+	same, last := 0, ""
+	for {
+		select {
+		case <-done:
+			return ""
+		case <-time.After(250 * time.Millisecond):
+		}
+		ids, blocked, dump := stuckInPackage(pkg)
+		if blocked && (last == "" || ids == last) {
+			same++
+			last = ids
+		} else {
+			same, last = 0, ""
+		}
+		if same >= 4 {
+			select {
+			case <-done:
+				return ""
+			default:
+			}
+			return "deadlock: every goroutine inside " + pkg + " waits on a lock or WaitGroup and none can proceed:\n" + dump
 		}
 	}
 }
